@@ -372,6 +372,7 @@ class Interp:
         cs0 = dict(ctx.class_state)
         ghost0 = dict(ctx.ghost)
         clock0 = ctx.clock
+        strict0 = ctx.clock_strict
         n_in = len(ctx.inputs)
         n_pc = len(ctx.pc)
         n_ob = len(ctx.side_unknown)
@@ -384,6 +385,7 @@ class Interp:
             ctx.class_state = dict(cs0)
             ctx.ghost = dict(ghost0)
             ctx.clock = clock0
+            ctx.clock_strict = strict0
             frame.locals = dict(saved_locals)
             ctx.depth = depth0
             ctx.cur_func = cur0
